@@ -323,9 +323,10 @@ func refFrameBits(b []byte) (q, p, n int, ok bool) {
 // the first two frame starts of a read (the geometry test fails and the read is given up, or the frame start found
 // lies late: the NEXT block reports the loss) or the cut lies deeper in a read whose head looks fine (frames
 // behind the cut are delivered without a drop report: the recorded finding).
-func classifyInRead(stream []byte, ds []int, R, pos, ncols, nrows int) string {
+func classifyInRead(stream []byte, ds []int, R, pos, glen, ncols, nrows int) string {
 	W := ncols * nrows
 	fs := 4 * W
+	nb := pos + (fs-(pos+glen)%fs)%fs // first frame boundary behind the cut
 	for _, D := range ds {
 		if D > len(stream) {
 			D = len(stream)
@@ -336,9 +337,10 @@ func classifyInRead(stream []byte, ds []int, R, pos, ncols, nrows int) string {
 		}
 		q, p, n, ok := refFrameBits(stream[R:D])
 		if !ok || n != ncols || (p-q)/n != nrows {
-			if L%4 != 0 {
-				// the whole read is given up, and its length is not a multiple of 4: the reader itself shifts
-				// the word grid and never finds the frames again (part of the recorded finding)
+			if L%4 != 0 || (D-nb)%fs == 0 {
+				// the whole read is given up, and (1) its length is not a multiple of 4: the reader itself shifts
+				// the word grid and never finds the frames again, or (2) it happens to end on a frame boundary:
+				// the next read looks aligned and the loss is never reported (both: part of the recorded finding)
 				return "gap-word-aligned-inside-read"
 			}
 			return "gap-in-first-two-frames"
@@ -427,7 +429,7 @@ func inputTags(c Case, data [][]byte) (tags map[string]bool, nontrivial bool) {
 				for j := range c.Ops {
 					all = append(all, data[j]...)
 				}
-				tags[classifyInRead(all, ds, R, c.GapPos, c.Ncols, c.Nrows)] = true
+				tags[classifyInRead(all, ds, R, c.GapPos, c.GapLen, c.Ncols, c.Nrows)] = true
 			}
 			postGap = true
 			continue
